@@ -28,7 +28,7 @@ static void wait_checked(PCondVariable *cv)
 {
     mc_mark();
     if (!p_cond_variable_wait(cv, m)) mc_fail("C03", "wait-returned-false", "p_cond_variable_wait returned FALSE");
-    if (mc_long_waits() == 0) mc_fail("C03", "wait-did-not-block", "p_cond_variable_wait returned without ever waiting on the condition variable");
+    if (!mc_is_free_running() && mc_long_waits() == 0) mc_fail("C03", "wait-did-not-block", "p_cond_variable_wait returned without ever waiting on the condition variable");
     mc_nontrivial(0);
 }
 
@@ -138,7 +138,7 @@ static void *held_waiter(void *arg)
     p_mutex_lock(m);
     while (!ready) wait_checked(cv_items);
     /* wait returned: this thread must own the mutex */
-    if (mc_mutex_owner(m) != mc_self()) mc_fail("C03", "held/mutex-not-owned-on-return", "p_cond_variable_wait returned but the mutex is owned by T%d, not by the waiter", mc_mutex_owner(m));
+    if (!mc_is_free_running() && mc_mutex_owner(m) != mc_self()) mc_fail("C03", "held/mutex-not-owned-on-return", "p_cond_variable_wait returned but the mutex is owned by T%d, not by the waiter", mc_mutex_owner(m));
     in_section = 1; mc_step(); mc_step(); in_section = 0;
     p_mutex_unlock(m);
     return NULL;
